@@ -269,3 +269,21 @@ Fixpoint parse_frames (fuel : nat) (s : list Z) : option (list (list Z)) :=
       | _ => None
       end
   end.
+
+(* ---------------- upstream address rotation (addressPool.pick, used by tcpSender.reconnect) ---------------- *)
+Record apool := mkAp { ap_addrs : list Z; ap_head : nat }.
+
+(* if len(p.addrs) == 0 return "", false; addr := p.addrs[p.head]; p.head = (p.head + 1) % len(p.addrs) *)
+Definition pick (p : apool) : option (Z * apool) :=
+  match ap_addrs p with
+  | [] => None
+  | _ => Some (nth (ap_head p) (ap_addrs p) 0,
+               mkAp (ap_addrs p) ((ap_head p + 1) mod length (ap_addrs p)))
+  end.
+
+(* the addresses returned by k successive picks (k successive reconnect attempts of one sender) *)
+Fixpoint picks (k : nat) (p : apool) : list Z :=
+  match k with
+  | O => []
+  | S k' => match pick p with Some (a, p') => a :: picks k' p' | None => [] end
+  end.
